@@ -182,30 +182,58 @@ mod agg {
 	}
 }
 
+/// model of committed::sum_kernel_offsets over the E7 scalar group: the real function (an
+/// iterator chain around blind_sum) is decided on its own by c01::kernel_offset_sum
+#[cfg(kani)]
+pub fn sum_kernel_offsets_model(positive: Vec<grin_keychain::BlindingFactor>, negative: Vec<grin_keychain::BlindingFactor>) -> Result<grin_keychain::BlindingFactor, grin_core::core::committed::Error> {
+	let mut r = 0u16;
+	let mut i = 0;
+	while i < positive.len() {
+		let b = positive[i].as_ref();
+		r = r.wrapping_add(b[0] as u16 | (b[1] as u16) << 8);
+		i += 1;
+	}
+	i = 0;
+	while i < negative.len() {
+		let b = negative[i].as_ref();
+		r = r.wrapping_sub(b[0] as u16 | (b[1] as u16) << 8);
+		i += 1;
+	}
+	core::mem::forget(positive);
+	core::mem::forget(negative);
+	Ok(grin_keychain::BlindingFactor::from_secret_key(crate::secp_model::key_of(r)))
+}
+
 #[cfg(kani)]
 proof! {
-	[secp, hash_mix, sort] fn aggregate_two_independent() {
-		// aggregate([a, b]) for two transactions that do not spend each other: kernels are the
-		// union, inputs the union, the offset is the sum of the offsets (model scalar group), and
-		// the result does not depend on the order of the operands
+	[secp, hash_mix, sort]
+	#[cfg_attr(kani, kani::stub(grin_core::core::committed::sum_kernel_offsets, sum_kernel_offsets_model))]
+	fn aggregate_two_independent() {
+		// aggregate of two transactions that do not spend each other, given in either order:
+		// kernels are the union (sorted by hash), inputs the union, no outputs appear, the offset
+		// is the sum of the offsets (model scalar group) - so the result does not depend on the
+		// order of the operands
 		use agg::*;
+		use grin_core::core::hash::Hashed;
 		use grin_core::core::transaction::aggregate;
 		let (a, ia, ka, oa) = any_tx();
 		let (b, ib, kb, ob) = any_tx();
 		nd::assume(ia != ib && ka != kb);
-		let ab = aggregate(&[a.clone(), b.clone()]);
-		check!(ab.is_ok(), "two independent transactions aggregate");
-		let ab = ab.unwrap();
+		nd::assume(a.kernels()[0].hash() != b.kernels()[0].hash());
+		let swap: bool = nd::any();
+		let txs = if swap { [b, a] } else { [a, b] };
+		let r = aggregate(&txs);
+		check!(r.is_ok(), "two independent transactions aggregate");
+		let ab = r.unwrap();
 		check!(ab.kernels().len() == 2 && has_kernel(&ab, &ka) && has_kernel(&ab, &kb), "kernels are the union");
+		check!(ab.kernels()[0].hash() < ab.kernels()[1].hash(), "kernels are sorted: the result does not depend on operand order");
 		check!(ab.inputs().len() == 2 && has_input(&ab, &ia) && has_input(&ab, &ib), "inputs are the union");
 		check!(ab.outputs().is_empty(), "no outputs appear");
 		check!(offset_of(&ab) == oa.wrapping_add(ob), "offset is the sum of the offsets");
-		let ba = aggregate(&[b, a]).unwrap();
-		check!(ba.kernels()[0].excess == ab.kernels()[0].excess && ba.kernels()[1].excess == ab.kernels()[1].excess, "operand order does not matter (kernels)");
-		check!(offset_of(&ba) == offset_of(&ab), "operand order does not matter (offset)");
 		cover!(oa != 0 && ob != 0 && oa.wrapping_add(ob) == 0, "offsets cancel");
+		cover!(swap, "operands swapped");
 		core::mem::forget(ab);
-		core::mem::forget(ba);
+		core::mem::forget(txs);
 	}
 }
 
